@@ -33,6 +33,11 @@ def valid_pool(tier):
             {"name": "f", "type": "int", "doc": "fd", "aliases": ["g"], "default": 3, "order": "descending", "x": [1]},
             {"name": "d", "type": {"type": "bytes", "logicalType": "decimal", "precision": 5, "scale": 2}},
             {"name": "fd", "type": {"type": "fixed", "name": "FD", "size": 4, "logicalType": "decimal", "precision": 9, "scale": 0}},
+            # fixed decimals at exactly the largest precision their size holds (must be accepted)
+            {"name": "fd1", "type": {"type": "fixed", "name": "FD1", "size": 1, "logicalType": "decimal", "precision": 2, "scale": 1}},
+            {"name": "fd2", "type": {"type": "fixed", "name": "FD2", "size": 2, "logicalType": "decimal", "precision": 4, "scale": 0}},
+            {"name": "fd8", "type": {"type": "fixed", "name": "FD8", "size": 8, "logicalType": "decimal", "precision": 18, "scale": 9}},
+            {"name": "fd16", "type": {"type": "fixed", "name": "FD16", "size": 16, "logicalType": "decimal", "precision": 38, "scale": 0}},
             {"name": "arr", "type": {"type": "array", "items": "long"}, "default": [1, 2]},
             {"name": "u", "type": ["null", {"type": "array", "items": "int"}], "default": None},
             {"name": "u2", "type": [{"type": "map", "values": "int"}, "null"], "default": {"a": 1}},
@@ -74,7 +79,20 @@ def ill_formed(raw, rng):
                 if v is None:
                     continue
                 out.append(("decimal", _put(raw, path, {**sub, k: v})))
+            if sub["type"] == "fixed":
+                # the boundary: one digit more than the fixed size can hold, for several sizes
+                for size in (1, 2, 3, 4, 8, 12, 16):
+                    out.append(("decimal", _put(raw, path, {**sub, "size": size, "precision": max_precision(size) + 1, "scale": 0})))
     return out
+
+
+def max_precision(size):
+    """largest number of decimal digits d such that every d-digit number fits a signed integer of `size` bytes
+    (exact integer arithmetic: 10**d - 1 <= 2**(8*size - 1) - 1)"""
+    d = 0
+    while 10 ** (d + 1) <= 2 ** (8 * size - 1):
+        d += 1
+    return d
 
 
 def _bad_defaults(ft):
@@ -146,7 +164,9 @@ def run_c11(tier, seed):
         guarded(res, "accepts_valid_names_per_spec", case, rp, body)
         muts = ill_formed(raw, rng)
         if tier == "quick" and len(muts) > 40:
-            muts = rng.sample(muts, 40)
+            keep = [m for m in muts if m[0] == "decimal"]       # few and boundary-valued: never sampled away
+            rest = [m for m in muts if m[0] != "decimal"]
+            muts = keep + rng.sample(rest, min(len(rest), 40))
         for kind, bad in muts:
             try:
                 SS.parse_top(bad)
